@@ -14,6 +14,9 @@ let () =
     | "c13" -> Fam_print.c13
     | "c15" -> Fam_unordered.run
     | "c06" -> Fam_object.run
+    | "c11" -> Fam_nav.run
+    | "c14" -> Fam_compare.run
+    | "c03" -> Fam_parse.c03
     | _ -> prerr_endline ("unknown family " ^ fam); exit 2
   in
   let out = Buffer.create (1 lsl 16) in
